@@ -126,7 +126,7 @@ PROPS = {
         assumptions=['work bound calibrated on valid traffic (max observed ~400 calls/byte)',
                      'a change is explained by a lenient reading of the frame: inconsistent size fields are tolerated as long '
                      'as service, path, type and values can be read off in order'],
-        quick=dict(parts=[dict(world='c08', count=320)]),
+        quick=dict(parts=[dict(world='c08', count=480)]),
         thorough=dict(parts=[dict(world='c08', count=16000)]),
     ),
     'C10': dict(
